@@ -78,7 +78,7 @@ def meets(r, i):
 
 
 def gen_C15(rng, tier):
-    n = 1500 if tier == "quick" else 40000
+    n = 1500 if tier == "quick" else 120000
     groups = []
     for _ in range(n):
         rs, qs = rng.choice("+-"), rng.choice("+-")
@@ -210,7 +210,7 @@ def rand_num_text(rng, valid_bias=0.8):
 # ------------------------------------------------------------------------------------------------
 
 def gen_C14(rng, tier):
-    n = 1500 if tier == "quick" else 30000
+    n = 1500 if tier == "quick" else 90000
     groups = []
     for _ in range(n):
         k = rng.random()
@@ -447,7 +447,7 @@ def expected_pairs(c):
 
 
 def gen_C04(rng, tier):
-    n = 1200 if tier == "quick" else 25000
+    n = 1200 if tier == "quick" else 75000
     groups = []
     for _ in range(n):
         c, fam = gen_step_case(rng)
@@ -573,7 +573,7 @@ def sections_case(rng, kinds, texts):
 
 
 def gen_C05(rng, tier):
-    n = 1500 if tier == "quick" else 30000
+    n = 1500 if tier == "quick" else 90000
     groups = []
     for _ in range(n):
         kinds, texts = gen_line_seq(rng)
@@ -652,7 +652,7 @@ def o_c05_sections(params, cases, outs):
 
 def gen_C07(rng, tier):
     groups = []
-    n = 700 if tier == "quick" else 12000
+    n = 700 if tier == "quick" else 36000
     for _ in range(n):
         kinds, texts = gen_line_seq(rng)
         if rng.random() < 0.5 and kinds:
